@@ -203,6 +203,8 @@ class Env(object):
         self.calls = []            # names of intercepted calls, in order (vacuity / debugging)
         self.no_more_timeouts = False
         self.idle = 0
+        self.pump = None           # reactive peer hook, called at every scheduling point
+        self.sent = {}             # fd -> bytes the library wrote with os.write (harness-side transcript)
         self.eager_reader = False
         self.blocked = {}          # label -> virtual seconds spent blocked there
         self.idle_limit = 3
@@ -381,6 +383,8 @@ class Env(object):
         if self.points > self.max_points:
             raise Cut('horizon: more than %d scheduling points' % self.max_points)
         self.fire_due()
+        if self.pump is not None:
+            self.pump()
         if not self.sched_enabled:
             return
         baton = None if self.eager_reader else self.baton
@@ -548,7 +552,12 @@ class OsProxy(object):
         env = ENV
         if env is not None:
             env.sched('write')
-        return _os.write(fd, data)
+        n = _os.write(fd, data)
+        if env is not None:
+            env.sent.setdefault(fd, bytearray()).extend(bytes(data)[:n])
+            if env.pump is not None:
+                env.pump()
+        return n
 
     def close(self, fd):
         env = ENV
